@@ -1,4 +1,5 @@
 import Seccomp.Proofs.Lemmas.RawLemmas
+import Seccomp.Proofs.Lemmas.ChainLemmas
 import Seccomp.Proofs.C01
 /-!
 # C08 — the installed filter enforces the policy on the running kernel  (partial)
@@ -74,5 +75,100 @@ theorem outcome_classes :
 theorem flipped_encoding_example :
     decode (encode (.jif .ne 7#32 3 5)) = some (.jif .eq 7#32 5 3) ∧
     decode (encode (.jif .lt 7#32 3 5)) = some (.jif .ge 7#32 5 3) := by decide
+
+
+/-! ## Several filters on one thread (`seccomp_run_filters`, `Model/Chain.lean`)
+
+A load history that succeeds more than once leaves a *chain* of filters; the kernel runs all of them and
+keeps the most restrictive answer.  The theorems below say what the property's "the kernel's decisions equal
+the policy's" becomes for such histories: the decision is the chain of the policies' decisions, a single
+filter decides alone, and no earlier or later filter can make any policy's answer more permissive. -/
+
+open Chain in
+/-- the order of the actions the kernel uses: kill_process < kill_thread < trap < errno < user_notif <
+    trace < log < allow -/
+theorem chain_precedence :
+    actionOnly actKillProcess < actionOnly actKillThread ∧ actionOnly actKillThread < actionOnly actTrap ∧
+    actionOnly actTrap < actionOnly actErrno ∧ actionOnly actErrno < actionOnly 0x7fc00000#32 ∧
+    actionOnly 0x7fc00000#32 < actionOnly actTrace ∧ actionOnly actTrace < actionOnly actLog ∧
+    actionOnly actLog < actionOnly actAllow ∧ actAllow = retAllow := by decide
+
+/-- every filter of the chain returns its policy's decision (any number of filters, any policies;
+    `pp` pairs each loaded policy with the program compiled from it) -/
+theorem kernel_chain_values (A : ArchInfo) (e : Endian) (pp : List (Policy × List Instr))
+    (h : ∀ x ∈ pp, assemblePolicy (some A) (Layout.ofEndian e) x.1 = .ok x.2)
+    (ev : Event) (a0 : Word) :
+    pp.map (fun x => runRaw (words e ev) (x.2.map encode) a0) =
+      pp.map (fun x => Result.ret (Spec.decision A x.1 ev)) := by
+  apply List.map_congr_left
+  intro x hx
+  exact kernel_decision_eq_spec A e x.1 x.2 (h x hx) ev a0
+
+/-- the decision of a chain of policies (newest first) -/
+def chainDecision (A : ArchInfo) (ps : List Policy) (ev : Event) : Word :=
+  Chain.chain (ps.map (fun p => Spec.decision A p ev))
+
+/-- **One filter decides alone**: with a single filter the observable outcome is the policy's. -/
+theorem chain_single_outcome (v : Word) : outcome (Chain.chain [v]) = outcome v := by
+  unfold Chain.chain Chain.runFrom Chain.runFrom Chain.keep
+  split
+  · rfl
+  · rename_i h
+    have hm := Chain.mask_eq_allow_of_not_lt v h
+    have h1 : outcome v = .allow := by
+      unfold outcome
+      have : v &&& 0xffff0000#32 = actAllow := hm
+      simp only [this, if_true]
+    rw [h1]; decide
+
+/-- **Stacking never loosens**: the chain's answer is at most as permissive as every single filter's. -/
+theorem chain_never_more_permissive (vs : List Word) (v : Word) (h : v ∈ vs) :
+    Chain.actionOnly (Chain.chain vs) ≤ Chain.actionOnly v :=
+  Chain.runFrom_le_mem _ vs v h
+
+/-- for policies: whatever else is loaded before or after, an event is never answered more permissively
+    than policy `p` (a member of the chain) answers it -/
+theorem chain_enforces_each_policy (A : ArchInfo) (ps : List Policy) (p : Policy) (hp : p ∈ ps) (ev : Event) :
+    Chain.actionOnly (chainDecision A ps ev) ≤ Chain.actionOnly (Spec.decision A p ev) :=
+  chain_never_more_permissive _ _ (List.mem_map.mpr ⟨p, hp, rfl⟩)
+
+/-- the chain's answer is the answer of one of its filters, or `allow` -/
+theorem chain_value_from_a_filter (vs : List Word) : Chain.chain vs = Chain.retAllow ∨ Chain.chain vs ∈ vs :=
+  Chain.runFrom_mem _ vs
+
+/-- one more (newer) filter can only lower the answer -/
+theorem chain_cons_le (v : Word) (vs : List Word) :
+    Chain.actionOnly (Chain.chain (v :: vs)) ≤ Chain.actionOnly (Chain.chain vs) := by
+  unfold Chain.chain
+  simp only [Chain.runFrom]
+  exact Chain.runFrom_mono _ _ vs (Chain.keep_le_left _ _)
+
+/-- filters that all allow leave the event allowed -/
+theorem chain_all_allow (vs : List Word) (h : ∀ v ∈ vs, Chain.actionOnly v = Chain.actionOnly Chain.retAllow) :
+    Chain.chain vs = Chain.retAllow := by
+  rcases chain_value_from_a_filter vs with h1 | h1
+  · exact h1
+  · -- the kept value would have to be strictly below `allow`
+    unfold Chain.chain at h1 ⊢
+    generalize hr : Chain.retAllow = r at h1 ⊢
+    have hall : ∀ v ∈ vs, ¬ Chain.actionOnly v < Chain.actionOnly r := by
+      intro v hv; rw [← hr, h v hv]; omega
+    clear h h1
+    induction vs generalizing r with
+    | nil => rfl
+    | cons c older ih =>
+      simp only [Chain.runFrom]
+      have hk : Chain.keep r c = r := by
+        unfold Chain.keep; rw [if_neg (hall c List.mem_cons_self)]
+      rw [hk]
+      exact ih r hr (fun v hv => hall v (List.mem_cons_of_mem _ hv))
+
+/-- among equal actions the newest filter's value is kept (its errno is what the caller sees), and a
+    killing filter wins wherever it stands -/
+theorem chain_examples :
+    Chain.chain [actErrno ||| 13#32, actErrno ||| 2#32] = actErrno ||| 13#32 ∧
+    Chain.chain [actAllow, actErrno ||| 1#32, actLog] = actErrno ||| 1#32 ∧
+    Chain.chain [actErrno ||| 1#32, actKillProcess, actAllow] = actKillProcess ∧
+    Chain.chain [] = actAllow := by decide
 
 end C08
